@@ -1,5 +1,7 @@
 import Driver.Seq
 import Driver.Grp
+import Driver.Agg
+import Driver.Rsm
 /-
   gfdriver: reads protocol lines (one case per line) from the file given as first argument (or stdin),
   writes one verdict line per case: `<case-id> <engine> key=value …`.
@@ -13,6 +15,8 @@ def checkLine (line : String) : String :=
     let res ← match eng with
       | "SEQ" => checkSeq
       | "GRP" => checkGrp
+      | "AGG" => checkAgg
+      | "RSM" => checkRsm
       | e => throw s!"unknown engine {e}"
     pure s!"{id} {eng} {res}"
   match runP p line with
